@@ -36,7 +36,7 @@ pub const DNAME_NEW: &str = "C4 Domain";
 /// attribute-type entries no longer change it, so the "schema" kind runs on a server kept at the
 /// last level whose schema is entry-driven (as the repository's own test_dynamic_schema_attr does).
 pub fn level_of(kind: &str) -> DomainVersion {
-    if kind == "schema" || kind == "schemaidx" || kind == "c6" {
+    if kind == "schema" || kind == "schemaidx" || kind == "c6" || kind == "none14" {
         DOMAIN_LEVEL_14
     } else {
         DOMAIN_TGT_LEVEL
@@ -182,7 +182,10 @@ pub fn ops_of(kind: &str) -> Vec<&'static str> {
         "reap" => vec!["reap"],
         "reindex" => vec!["reindex"],
         // C06 writer: two related entries + schema + access profile + OAuth2 client + domain setting
-        "c6" => vec!["modify", "modifyb", "schema", "acp", "oauth2", "domain"],
+        // (the configuration change comes FIRST and further modifies follow it in the same transaction)
+        "c6" => vec!["domain", "modify", "modifyb", "schema", "acp", "oauth2"],
+        // follow-up transaction of the C04 driver: one small successful write after the failed one
+        "follow" => vec!["follow"],
         "all" => vec!["create", "modify", "delete", "schema", "acp", "oauth2", "domain"],
         "badop" => vec!["create", "dup"],
         _ => vec![],
@@ -217,6 +220,10 @@ pub fn apply_op(w: &mut QueryServerWriteTransaction<'_>, op: &str) -> Result<(),
         "modifyb" => w.internal_modify_uuid(
             uuid_e(E2),
             &ModifyList::new_purge_and_set(Attribute::Description, Value::new_utf8s("d1")),
+        ),
+        "follow" => w.internal_modify_uuid(
+            uuid_e(G1),
+            &ModifyList::new_purge_and_set(Attribute::Description, Value::new_utf8s("follow")),
         ),
         "delete" => w.internal_delete_uuid(uuid_e(E2)),
         // recycled -> tombstone for everything older than the recycle window
@@ -352,6 +359,11 @@ pub async fn observe(s: &Srv) -> J {
     m.insert("acp".into(), json!(acp));
     m.insert("dn".into(), json!(r.get_domain_display_name().to_string()));
     m.insert("oa".into(), json!(yn(oa)));
+    // the replication update vector and the index metadata this reader holds
+    let (rn, rmax) = kanidmd_lib::verif::txn::reader_ruv(r);
+    m.insert("ruv".into(), json!(format!("n={} max={}.{}", rn, rmax.as_secs() as i64 - T0 as i64, rmax.subsec_nanos())));
+    let (ik, ihas) = kanidmd_lib::verif::txn::reader_idxmeta(r, "c4attr");
+    m.insert("ixm".into(), json!(format!("keys={} c4attr={}", ik, yn(ihas))));
     J::Object(m)
 }
 
